@@ -7,7 +7,7 @@ CONFIG = {
     "extracted": ["gds"],
     "driver": "gds",
     "harness": "gds",
-    "kinds": "info,filter,unit,raw,ts",
+    "kinds": "info,specinfo,filter,unit,raw,ts",
     "rule": ("per random gdstk-written file: info = gds_info versus gds_info_model and versus the full load (names, counts, tag sets, "
              "units; gds_units, gds_timestamp); filter = read_gds with a tag set versus read_gds_model with the same set, and versus "
              "load-then-discard computed by gdstk; unit = load with a target unit versus native load rescaled; raw = raw cells of a "
